@@ -120,6 +120,7 @@ type Machine struct {
 	nextObj   int
 	nextFake  uint64
 	fakePtrs  map[uint64]Value
+	addrObjs  map[uint64]*ByteObj
 	concBound int
 	crcBound  int
 	copyBound int
